@@ -313,6 +313,76 @@ def _char_consts(facts, f):
     return out
 
 
+def _is_dir_table(g):
+    """-> (ok, why): the boolean the accessor returns for each class of last character, read off every return path"""
+    from engine import sym
+    S = sym.Sym(g, max_paths=5000)
+    S._returns = []
+    try:
+        S.run(lambda bb, t: False)
+        rets = S._returns
+    except sym.SymTooComplex:
+        return False, "too many paths"
+    finally:
+        S._returns = None
+    if not rets:
+        return False, "no return path"
+
+    def is_char(d):
+        # the character drawn from the name: payload of the iterator's answer / of `last()` / of `chars().next_back()`
+        return any(isinstance(x, tuple) and x and x[0] == "call" and re.search(r"Iterator::next$|next_back$|Iterator::last$|str>::ends_with$", x[1]) for x in _walk_sym(d)) and d[0] != "discr"
+    explicit = {}
+    for r in rets:
+        for d, v in r["conds"]:
+            if is_char(d) and d[0] != "bin" and v is not None:
+                explicit.setdefault(d, set()).add(v)
+    for cv, want in ((47, True), (92, True), (97, False), (0x5C + 1, False), (None, False)):
+        hit = []
+        for r in rets:
+            okp = True
+            for d, v in r["conds"]:
+                if d[0] == "discr":
+                    some = (v != 0)
+                    if (cv is None) == some:
+                        okp = False
+                elif cv is None:
+                    okp = False
+                elif d[0] == "bin" and d[1] in ("Eq", "Ne") and d[3][0] == "const":
+                    truth = (cv == d[3][2]) == (d[1] == "Eq")
+                    if truth != ((v is None) or v != 0):
+                        okp = False
+                elif is_char(d):
+                    if v is None:
+                        if cv in explicit.get(d, ()):
+                            okp = False
+                    elif v != cv:
+                        okp = False
+                else:
+                    return False, "a decision on something else than the last character"
+            if okp:
+                hit.append(r)
+        if len(hit) != 1:
+            return False, "%d paths for a last character %r" % (len(hit), chr(cv) if cv else None)
+        v = hit[0]["ret"]
+        if v[0] == "const":
+            got = bool(v[2])
+        elif v[0] == "bin" and v[1] in ("Eq", "Ne") and v[3][0] == "const" and cv is not None:
+            got = (cv == v[3][2]) == (v[1] == "Eq")
+        else:
+            return False, "returns %s" % sym.show(v)[:60]
+        if got != want:
+            return False, "a name ending in %r is%s reported as a directory" % (chr(cv) if cv else "(empty name)", "" if got else " not")
+    return True, ""
+
+
+def _walk_sym(v):
+    yield v
+    if isinstance(v, tuple):
+        for x in v:
+            if isinstance(x, tuple):
+                yield from _walk_sym(x)
+
+
 def accessor_sibling_rules(facts, rep, rule="C10-SEQ"):
     """the metadata the two readers hand out answers derived questions the same way: `is_dir()` of the seekable reader's ZipFile and of
     the streaming reader's metadata both treat a trailing '/' or '\\' as a directory (is_file() is its negation in both)"""
@@ -322,6 +392,11 @@ def accessor_sibling_rules(facts, rep, rule="C10-SEQ"):
     ca, cb = _char_consts(facts, a), _char_consts(facts, b)
     ok &= rep.check(ca == cb == {47, 92}, rule, "sibling:is_dir", where(b, b.span), "both is_dir() accessors test '/' and '\\'",
                     "ZipFile::is_dir tests %s, ZipStreamFileMetadata::is_dir tests %s: the two readers disagree on which entries are directories" % (sorted(map(chr, ca)), sorted(map(chr, cb))))
+    # ... and the predicate itself, decided on the value flow (E9): for a last character '/', '\\', any other one, and for the empty name
+    for nm, g in (("ZipFile", a), ("ZipStreamFileMetadata", b)):
+        good, why = _is_dir_table(g)
+        ok &= rep.check(good, rule, "is_dir-table:%s" % nm, where(g, g.span), "is_dir() <=> the name's last character is '/' or '\\' (false for an empty name)",
+                        "%s::is_dir does not answer `last character is a separator`: %s" % (nm, why))
     for nm, pat in (("ZipFile", r"^read::ZipFile::<'a>::is_file$"), ("ZipStreamFileMetadata", r"^read::stream::ZipStreamFileMetadata::is_file$")):
         g = facts.one(pat)
         calls = [t["callee"].split("::")[-1] for _, t in g.calls()]
